@@ -279,7 +279,9 @@ func judge(c *Case) (sig, detail string) {
 	return sig, fmt.Sprintf("%s with %s: got %s; the rule predicts %s", c.Src, strings.Join(truths, ", "), c.Got, c.Want)
 }
 
-var pool = []string{"0", "1", "-1", "0.0", "2.5", `""`, `"a"`, "[]", "[0]", "[nil]", "{}", "{a: nil}", "%{}", "%{nil: nil}", "nil", "true", "false", "(1:2)", "(nil:nil)",
+var pool = []string{"%{[1]: 2}", "%{{a: 1}: 1}", "%{[1]: 2, 3: 4}", "%{[]: nil}", "%{(1:2): 1}", "-0.0", `"NaN".F`, `"Inf".F`, `" "`, `"0"`, "[[]]", "[false]", "{a: false}", "{_p: 1}", "(0:0)", "('a:'a)", "'a", "0x0", "1e0",
+	"Map.bear.new(%{[1]: 2})", "%{[1]: 2}.bear", "Arr.bear.new([nil])", "{_p: 1}.bear", "[0, 1]@{|x| x}", "{a: 1}.keys", "{}.keys", "\"ab\"[5:9]", "\"ab\"[0:1]", "[1, 2][5:]", "JSON.dec(`{}`)", "JSON.dec(`[0]`)", "1.try.{|x| nil}", "nil.try.val",
+	"0", "1", "-1", "0.0", "2.5", `""`, `"a"`, "[]", "[0]", "[nil]", "{}", "{a: nil}", "%{}", "%{nil: nil}", "nil", "true", "false", "(1:2)", "(nil:nil)",
 	"{|x| x}", "<{|x| yield x}>", "'a", "Int", "Str", "Arr", "Obj", "Map", "Nil", "Float", "Range", "Func", "Iter", "Err", "Kernel", "Either",
 	"Int.bear.new(0)", "Int.bear.new(3)", `Str.bear.new("")`, `Str.bear.new("q")`, "Arr.bear.new([])", "Arr.bear.new([1])", "Float.bear.new(0.0)", "Float.bear.new(1.5)", "Nil.bear.new", "Map.bear.new(%{})", "Map.bear.new(%{1: 2})",
 	"{}.bear", "{a: 1}.bear", "{a: 1}.bear({})", "{}.bear({b: 2})", "(1:3).bear", "[1].bear", "[].bear", `"a".bear`, `"".bear`, "1.bear", "0.bear", "nil.bear", "true.bear", "false.bear",
